@@ -30,6 +30,37 @@ def run_rules(mod, repo, prop, tier):
     return ctx
 
 
+def module_value_reads(repo):
+    """changed function -> module-level value names (defined by assignment in this module, or imported from a module of the package where they
+    are defined by assignment: `ice`, `earth`, `earth_radius`) that it reads and its confirmed form does not"""
+    import ast
+    from .core import canon
+    if hasattr(repo, "_module_value_reads"):
+        return repo._module_value_reads
+    own = {}
+    for m, tree in repo.modules.items():
+        own[m] = {t.id for st in tree.body if isinstance(st, (ast.Assign, ast.AnnAssign)) for t in (st.targets if isinstance(st, ast.Assign) else [st.target])
+                  if isinstance(t, ast.Name) and not t.id.startswith("__") and t.id != "logger"}
+    out = {}
+    ref = canon.reference_functions()
+    for m, tree in repo.modules.items():
+        values = set(own[m])
+        for st in tree.body:
+            if isinstance(st, ast.ImportFrom):
+                src = repo.abs_from(m, st) if hasattr(repo, "abs_from") else None
+                for a in st.names:
+                    if src in own and a.name in own[src]:
+                        values.add(a.asname or a.name)
+        for q, body, i, fn in canon.outer_functions(tree, m):
+            if q not in repo.changed or q not in ref:
+                continue
+            got = canon.new_global_reads(fn, ref[q]["src"], values)
+            if got:
+                out[q] = got
+    repo._module_value_reads = out
+    return out
+
+
 def new_guard_rule(ctx, prop):
     """Rnnz (generic, differential): in a function the property's rules are anchored in, a condition that the confirmed function does not test
     at all now decides whether statements run or whether the function / loop iteration is left early -- the shape of a "fast path" or a
@@ -50,6 +81,17 @@ def new_guard_rule(ctx, prop):
             n += 1
             ctx.bad(rid, q0, "every input takes the confirmed paths through this function: no new condition skips or shortcuts work", f"new condition `{test}` {what}",
                     key_detail=f"new guard {test[:60]}")
+    rid2 = f"R{prop[1:]}y"
+    ctx.rule(rid2, "an anchor function reads no module-level object or constant that the confirmed function did not read (e.g. the module's default `ice` instead of `self.ice`)", kind="N")
+    classes = {c.rsplit(".", 1)[0] for c in anchored if c.count(".") >= 3}
+    for q, names in sorted(module_value_reads(ctx.repo).items()):
+        q0 = q.split("#")[0]
+        # (a method of a class the property's rules are anchored in, or an anchored function itself)
+        if not (any(c == q0 or c.startswith(q0 + ".") or c.startswith(q0 + "->") for c in anchored) or q0.rsplit(".", 1)[0] in classes):
+            continue
+        for nm in names:
+            n += 1
+            ctx.bad(rid2, q0, "the function works on the objects it was given, not on the module's defaults", f"now reads the module-level value `{nm}`", key_detail=f"new global {nm}")
     return n
 
 
